@@ -1,0 +1,133 @@
+//go:build verif
+
+// Contracts for govc (see /verif/DESIGN.md). Comment-only file: no executable code.
+
+package network
+
+// ---------------------------------------------------------------------------
+// C31: the encrypted peer connection is a faithful byte stream
+// (trusted AEAD / net.Conn / io.ReadFull models: /verif/specs/cipher.gospec, net.gospec, io.gospec)
+// ---------------------------------------------------------------------------
+
+//@ property C31
+//@ smt all (declare-ghost nonce_ctr Int)
+//@ spec suiteOf(sa) = aead_suite(sa.aead)
+//@ spec keyOf(sa) = aead_key(sa.aead)
+//@ spec ovh(sa) = aead_ovh(sa.aead)
+//@ spec saOK(sa) = sa != nil && sa.aead != nil && sa.conn != nil && len(sa.nonce) == aead_ns(sa.aead)
+//@ spec be16At(a, p) = (int(a[p]) * 256) + int(a[p + 1])
+
+// the nonce is a big-endian counter: increaseNonce is its successor function (bit-vector exact),
+// byte j is incremented iff every lower-order byte was 0xff. nonce_ctr counts the calls.
+//@ func (sa *SecureAead) increaseNonce()
+//@   arith bv
+//@   requires sa != nil && sa.aead != nil && len(sa.nonce) == aead_ns(sa.aead)
+//@   modifies sa.nonce[*]
+//@   opt ghost:nonce_ctr ghost(nonce_ctr) + 1
+//@   ensures [carry] forall j int :: {sa.nonce[j]} 0 <= j && j < len(sa.nonce) && (forall m int :: {old(arr(sa.nonce))[off(sa.nonce) + m]} j < m && m < len(sa.nonce) ==> old(arr(sa.nonce))[off(sa.nonce) + m] == 255) ==> sa.nonce[j] == old(arr(sa.nonce))[off(sa.nonce) + j] + 1
+//@   ensures [keep] forall j int, m int :: {sa.nonce[j], old(arr(sa.nonce))[off(sa.nonce) + m]} 0 <= j && j < m && m < len(sa.nonce) && old(arr(sa.nonce))[off(sa.nonce) + m] != 255 ==> sa.nonce[j] == old(arr(sa.nonce))[off(sa.nonce) + j]
+//@   ensures [outside] forall x int :: {arr(sa.nonce)[x]} x < off(sa.nonce) || x >= off(sa.nonce) + len(sa.nonce) ==> arr(sa.nonce)[x] == old(arr(sa.nonce))[x]
+//@   loop 0: invariant -1 <= i && i < len(sa.nonce) && sa.nonce == old(sa.nonce)
+//@   loop 0: invariant forall m int :: {arr(sa.nonce)[off(sa.nonce) + m]} i < m && m < len(sa.nonce) ==> old(arr(sa.nonce))[off(sa.nonce) + m] == 255 && arr(sa.nonce)[off(sa.nonce) + m] == 0
+//@   loop 0: invariant forall x int :: {arr(sa.nonce)[x]} x <= off(sa.nonce) + i || x >= off(sa.nonce) + len(sa.nonce) ==> arr(sa.nonce)[x] == old(arr(sa.nonce))[x]
+
+// Write seals b in frames of at most 1024 plaintext bytes. Every frame handed to the transport is
+// be16(len) | 0 0 | Seal(current nonce, chunk); the chunks are, in order, exactly b[:n]
+// (ghost tx stream); the nonce advances exactly once per sealed frame.
+//@ func (sa *SecureAead) Write(b) (n, err)
+//@   arith int
+//@   requires saOK(sa) && ref(b) != ref(sa.nonce) && ghost(nonce_ctr) == ghost(seal_ctr) && ghost(sent_ctr) == ghost(seal_ctr) && ghost(tx_len) >= 0 && ghost(w_len) >= 0
+//@   requires ghost(tx_len) < 0x1000000000000000 && ghost(w_len) < 0x1000000000000000
+//@   modifies sa.nonce[*], ghost(nonce_ctr), ghost(seal_ctr), ghost(sent_ctr), ghost(tx_arr), ghost(tx_len), ghost(last_ct), ghost(last_len), ghost(w_arr), ghost(w_len)
+//@   callpre Seal: nonce == sa.nonce && len(additionalData) == 0 && ghost(nonce_ctr) == ghost(seal_ctr) && ghost(sent_ctr) == ghost(seal_ctr) && 0 < len(plaintext) && len(plaintext) <= 1024
+//@   callpre Write: ghost(sent_ctr) + 1 == ghost(seal_ctr) && ghost(nonce_ctr) == ghost(seal_ctr) && len(b) == 4 + ghost(last_len) + ovh(sa)
+//@   callpre Write: be16At(b, 0) == ghost(last_len)
+//@   callpre Write: bseq(arr(b), off(b) + 4, len(b) - 4) == ghost(last_ct)
+//@   ensures [count] 0 <= n && n <= len(b) && (err == nil ==> n == len(b))
+//@   ensures [plain] err == nil ==> ghost(tx_len) == old(ghost(tx_len)) + len(b) && (forall j int :: {b[j]} 0 <= j && j < len(b) ==> ghost(tx_arr)[old(ghost(tx_len)) + j] == b[j])
+//@   ensures [prefix] forall x int :: {ghost(tx_arr)[x]} 0 <= x && x < old(ghost(tx_len)) ==> ghost(tx_arr)[x] == old(ghost(tx_arr))[x]
+//@   ensures [sync] ghost(nonce_ctr) == ghost(seal_ctr) && ghost(sent_ctr) == ghost(seal_ctr)
+//@   loop 0: invariant 0 <= n && n <= wn && wn == len(b) && saOK(sa) && len(frame) == 1024 && off(frame) == 0 && cap(frame) == 1024 && len(sealed) == 4 + 1024 + ovh(sa) && off(sealed) == 0 && cap(sealed) == len(sealed)
+//@   loop 0: invariant ghost(nonce_ctr) == ghost(seal_ctr) && ghost(sent_ctr) == ghost(seal_ctr) && ghost(w_len) >= old(ghost(w_len))
+//@   loop 0: invariant ghost(tx_len) == old(ghost(tx_len)) + n && (forall j int :: {b[j]} 0 <= j && j < n ==> ghost(tx_arr)[old(ghost(tx_len)) + j] == b[j])
+//@   loop 0: invariant forall x int :: {ghost(tx_arr)[x]} 0 <= x && x < old(ghost(tx_len)) ==> ghost(tx_arr)[x] == old(ghost(tx_arr))[x]
+
+// Read returns the next bytes of the opened plaintext stream (ghost rx stream), at most len(b) of
+// them, and keeps the rest of the frame for the next call: position = rx_len - len(sa.rbuf)
+// advances by exactly n. A frame is opened with the current nonce over exactly the bytes the
+// header announces; the nonce advances exactly once per successfully opened frame.
+//@ spec rxPos(sa) = ghost(rx_len) - len(sa.rbuf)
+//@ spec rxInv(sa) = len(sa.rbuf) <= ghost(rx_len) && (forall a int :: {arr(sa.rbuf)[a]} off(sa.rbuf) <= a && a < off(sa.rbuf) + len(sa.rbuf) ==> arr(sa.rbuf)[a] == ghost(rx_arr)[ghost(rx_len) - len(sa.rbuf) + (a - off(sa.rbuf))])
+//@ func (sa *SecureAead) Read(b) (n, err)
+//@   arith int
+//@   opt bseq-ext
+//@   requires saOK(sa) && rxInv(sa) && ghost(nonce_ctr) == ghost(open_ctr) && ref(b) != ref(sa.rbuf) && ref(b) != ref(sa.nonce)
+//@   requires 0 <= ghost(r_pos) && ghost(r_pos) < 0x1000000000000000 && ghost(rx_len) < 0x1000000000000000
+//@   modifies sa.rbuf, sa.nonce[*], b[*], ghost(nonce_ctr), ghost(open_ctr), ghost(rx_arr), ghost(rx_len), ghost(r_pos)
+//@   callpre Open: nonce == sa.nonce && len(additionalData) == 0 && ghost(nonce_ctr) == ghost(open_ctr) && len(dst) == 0
+//@   callpre Open: len(ciphertext) == be16At(ghost(r_arr), ghost(r_pos) - len(ciphertext) - 4) + ovh(sa)
+//@   callpre Open: seq(ciphertext) == bseq(ghost(r_arr), ghost(r_pos) - len(ciphertext), len(ciphertext))
+//@   ensures [bounds] 0 <= n && n <= len(b)
+//@   ensures [inv] rxInv(sa)
+//@   ensures [stream] forall j int :: {b[j]} 0 <= j && j < n ==> b[j] == ghost(rx_arr)[old(rxPos(sa)) + j]
+//@   ensures [position] err == nil ==> rxPos(sa) == old(rxPos(sa)) + n
+//@   ensures [failed] err != nil ==> n == 0 && ghost(rx_len) == old(ghost(rx_len)) && sa.rbuf == old(sa.rbuf)
+//@   ensures [prefix] forall x int :: {ghost(rx_arr)[x]} 0 <= x && x < old(ghost(rx_len)) ==> ghost(rx_arr)[x] == old(ghost(rx_arr))[x]
+//@   ensures [buffered] old(len(sa.rbuf)) > 0 ==> err == nil && ghost(r_pos) == old(ghost(r_pos)) && ghost(rx_len) == old(ghost(rx_len)) && ghost(open_ctr) == old(ghost(open_ctr))
+//@   ensures [progress] err == nil && len(b) > 0 && ghost(rx_len) > old(rxPos(sa)) ==> n > 0
+//@   ensures [oneframe] ghost(open_ctr) <= old(ghost(open_ctr)) + 1
+//@   ensures [sync] ghost(nonce_ctr) == ghost(open_ctr)
+
+// A fresh SecureAead is keyed by exactly the secret given, starts with an all-zero nonce and an
+// empty read buffer.
+//@ func newSecureAead(conn, sa, secret) (a, err)
+//@   arith int
+//@   pure
+//@   ensures [fresh] err == nil ==> a != nil && fresh(a) && a.conn == conn && a.aead != nil && aead_key(a.aead) == seq(secret) && len(a.nonce) == aead_ns(a.aead) && len(a.rbuf) == 0
+//@   ensures [nonce0] err == nil ==> (forall j int :: {a.nonce[j]} 0 <= j && j < len(a.nonce) ==> a.nonce[j] == 0)
+//@   ensures [suite] err == nil ==> aead_suite(a.aead) == (sa == 1 ? 1 : 2) && (sa == 1 || sa == 2 || sa == 3)
+
+// Direction split: the end that holds the lower public key reads with secret[0] and writes with
+// secret[1], the other end the opposite, so each direction has its own key and the two ends agree.
+//@ func NewSecureConn(conn, sa, k) (c, err)
+//@   arith int
+//@   pure
+//@   requires k != nil
+//@   ensures [ends] err == nil ==> c != nil && c.in != nil && c.out != nil && c.in != c.out
+//@   ensures [keys] err == nil && len(k.secret) >= 2 ==> aead_key(c.in.aead) == seq(k.secret[k.isLower ? 0 : 1]) && aead_key(c.out.aead) == seq(k.secret[k.isLower ? 1 : 0])
+//@   ensures [transport] err == nil ==> c.in.conn == conn && c.out.conn == conn && aead_suite(c.in.aead) == aead_suite(c.out.aead)
+//@   ensures [nosecret] len(k.secret) == 0 ==> err != nil
+
+// Which end is "lower" is decided by comparing the peer's public key with the own one,
+// (X, Y) lexicographically; equal keys fall back to the caller's default.
+//@ spec lowerOf(px, py, x, y, d) = px > x || (px == x && (py > y || (py == y && d)))
+//@ lemma lower_antisym int : forall x int, y int, px int, py int, d1 bool, d2 bool :: (x != px || y != py) ==> lowerOf(px, py, x, y, d1) != lowerOf(x, y, px, py, d2)
+//@ lemma lower_default int : forall x int, y int, d bool :: lowerOf(x, y, x, y, d) == d
+//@ func (k *secureKey) setPeerPublicKey(publicKey, defaultLower) (err)
+//@   arith int
+//@   requires k != nil && k.PrivateKey != nil && k.PrivateKey.X != nil && k.PrivateKey.Y != nil && !k.isLower
+//@   modifies k.pX, k.pY, k.isLower
+//@   ensures [lower] err == nil ==> k.pX != nil && k.pY != nil && k.isLower == lowerOf(big(k.pX), big(k.pY), big(k.PrivateKey.X), big(k.PrivateKey.Y), defaultLower)
+
+// Key split: the HKDF output stream (ghost input stream r_arr of io.ReadFull) is cut into
+// consecutive blocks of secretLen bytes; secret[i] is block i in its own array, extra is the
+// block after the last secret. So the directional keys are different parts of the stream and both
+// ends, reading the same stream, get the same blocks. (The stream itself - ECDH shared point and
+// HKDF-SHA3 - is outside the contracts.)
+//@ spec secLen(k) = (k.sa == 2 ? 16 : 32)
+//@ spec blk(k, i) = (k.sa == 2 ? 16 * i : 32 * i)
+//@ func (k *secureKey) hkdf(numOfSecret) (err)
+//@   arith int
+//@   requires k != nil && k.PrivateKey != nil && k.PrivateKey.D != nil && k.PrivateKey.Curve != nil && 0 <= numOfSecret && numOfSecret < 0x1000000
+//@   requires 0 <= ghost(r_pos) && ghost(r_pos) < 0x1000000000000000 && ghost(w_len) >= 0 && ghost(w_len) < 0x1000000000000000
+//@   modifies k.secret, k.extra, ghost(r_pos), ghost(w_arr), ghost(w_len)
+//@   ensures [suites] err == nil ==> k.sa == 0 || k.sa == 1 || k.sa == 2 || k.sa == 3
+//@   ensures [count] err == nil ==> len(k.secret) == numOfSecret && len(k.extra) == secLen(k) && ghost(r_pos) == old(ghost(r_pos)) + blk(k, numOfSecret + 1)
+//@   ensures [blocks] err == nil ==> (forall i int :: {k.secret[i]} 0 <= i && i < numOfSecret ==> len(k.secret[i]) == secLen(k) && (forall j int :: {k.secret[i][j]} 0 <= j && j < secLen(k) ==> k.secret[i][j] == ghost(r_arr)[old(ghost(r_pos)) + blk(k, i) + j]))
+//@   ensures [extra] err == nil ==> (forall j int :: {k.extra[j]} 0 <= j && j < secLen(k) ==> k.extra[j] == ghost(r_arr)[old(ghost(r_pos)) + blk(k, numOfSecret) + j])
+//@   ensures [separate] err == nil ==> (forall i1 int, i2 int :: {k.secret[i1], k.secret[i2]} 0 <= i1 && i1 < i2 && i2 < numOfSecret ==> ref(k.secret[i1]) != ref(k.secret[i2]))
+//@   loop 0: invariant 0 <= i && i <= numOfSecret && n == blk(k, i) && secretLen == secLen(k) && len(k.secret) == numOfSecret && off(k.secret) == 0 && fresh(k.secret) && len(b) == blk(k, numOfSecret + 1) && off(b) == 0 && fresh(b)
+//@   loop 0: invariant forall q int :: {k.secret[q]} 0 <= q && q < i ==> len(k.secret[q]) == secretLen && fresh(k.secret[q]) && allocated(k.secret[q]) && ref(k.secret[q]) != ref(b) && off(k.secret[q]) == 0 && (forall j int :: {k.secret[q][j]} 0 <= j && j < secretLen ==> k.secret[q][j] == b[blk(k, q) + j])
+//@   loop 0: invariant forall q1 int, q2 int :: {k.secret[q1], k.secret[q2]} 0 <= q1 && q1 < q2 && q2 < i ==> ref(k.secret[q1]) != ref(k.secret[q2])
+//@   loop 0: invariant forall a int :: {arr(b)[a]} 0 <= a && a < len(b) ==> arr(b)[a] == ghost(r_arr)[old(ghost(r_pos)) + a]
+//@   loop 1: invariant -1 <= rangeindex && rangeindex < len(k.secret)
